@@ -315,8 +315,9 @@ structure DecodeResult where
   geometry : Geometry
   metadata : Option GeometryMetadata
 
-/-- `Decoder::DecodeBufferToGeometry` for the sequential methods (encoder_method 0) -/
-def decodeGeometry (opts : DecOpts) : DecM DecodeResult := do
+/-- `Decoder::DecodeBufferToGeometry`; `kd` = `PointCloudKdTreeDecoder`'s `DecodeGeometryData` +
+    `DecodePointAttributes` (encoder_method 1 on point clouds, `DracoModel/KdTreeAttr.lean`) -/
+def decodeGeometryHook (kd : DecOpts → DecM Geometry) (opts : DecOpts) : DecM DecodeResult := do
   let h ← decodeHeader
   -- Decoder::GetEncodedGeometryType
   require (h.encoderType < 2)
@@ -330,6 +331,7 @@ def decodeGeometry (opts : DecOpts) : DecM DecodeResult := do
   setVersion (bsVersion h.major h.minor)
   let ver := bsVersion h.major h.minor
   let md ← if ver ≥ bsVersion 1 3 && h.flags / 32768 % 2 == 1 then (do let g ← lift Leaf.decodeGeometryMetadata; pure (some g)) else pure none
+  if h.encoderMethod != 0 && !isMesh then (do let g ← kd opts; pure ⟨g, md⟩) else
   if h.encoderMethod != 0 then failWith (.unsupported (if isMesh then "edgebreaker" else "kd-tree")) else
   if isMesh then
     let (numPoints, faces) ← decodeSeqConnectivity
@@ -342,5 +344,9 @@ def decodeGeometry (opts : DecOpts) : DecM DecodeResult := do
     declare numPoints
     let atts ← decodePointAttributesSeq opts numPoints
     pure ⟨{ isMesh := false, numPoints := numPoints, faces := [], atts := atts }, md⟩
+
+/-- `Decoder::DecodeBufferToGeometry` for the sequential methods (encoder_method 0) -/
+def decodeGeometry (opts : DecOpts) : DecM DecodeResult :=
+  decodeGeometryHook (fun _ => failWith (.unsupported "kd-tree")) opts
 
 end Draco
